@@ -18,6 +18,8 @@ import (
 
 type c04Event struct {
 	name string
+	// wireOnly: only a real region client can notice it (read timeout on a silent server)
+	wireOnly bool
 	// apply mutates the cluster; it returns an expectation override for keys it affects
 	apply func(cl *sim.Cluster)
 }
@@ -36,7 +38,7 @@ func otherServer(cl *sim.Cluster, not string) string {
 func c04Events() []c04Event {
 	tr := func(cls string, n int) c04Event {
 		short := cls[strings.LastIndexByte(cls, '.')+1:]
-		return c04Event{fmt.Sprintf("transient(%s x%d)", short, n), func(cl *sim.Cluster) {
+		return c04Event{fmt.Sprintf("transient(%s x%d)", short, n), false, func(cl *sim.Cluster) {
 			r := regionOf(cl, "t", "a")
 			for i := 0; i < n; i++ {
 				cl.Script[string(r.Name())] = append(cl.Script[string(r.Name())], cls)
@@ -44,15 +46,15 @@ func c04Events() []c04Event {
 		}}
 	}
 	return []c04Event{
-		{"move(A)", func(cl *sim.Cluster) { r := regionOf(cl, "t", "a"); cl.Move(r, otherServer(cl, r.Server)) }},
-		{"move(B)", func(cl *sim.Cluster) { r := regionOf(cl, "t", "x"); cl.Move(r, otherServer(cl, r.Server)) }},
-		{"split(A@f)", func(cl *sim.Cluster) {
+		{"move(A)", false, func(cl *sim.Cluster) { r := regionOf(cl, "t", "a"); cl.Move(r, otherServer(cl, r.Server)) }},
+		{"move(B)", false, func(cl *sim.Cluster) { r := regionOf(cl, "t", "x"); cl.Move(r, otherServer(cl, r.Server)) }},
+		{"split(A@f)", false, func(cl *sim.Cluster) {
 			r := regionOf(cl, "t", "a")
 			if r.Contains([]byte("f")) && string(r.Start) != "f" {
 				cl.Split(r, "f", r.Server, otherServer(cl, r.Server))
 			}
 		}},
-		{"merge(A,B)", func(cl *sim.Cluster) {
+		{"merge(A,B)", false, func(cl *sim.Cluster) {
 			a, b := regionOf(cl, "t", "a"), regionOf(cl, "t", "x")
 			if a != b && string(a.Stop) == string(b.Start) {
 				cl.Merge(a, b, b.Server)
@@ -60,7 +62,7 @@ func c04Events() []c04Event {
 		}},
 		tr(sim.ClsNSRE, 2), tr(sim.ClsRegionMoved, 1), tr(sim.ClsRegionOpen, 2), tr(sim.ClsTooBusy, 1), tr(sim.ClsCallQueue, 3), tr(sim.ClsThrottle, 1),
 		tr("org.apache.hadoop.hbase.RetryImmediatelyException", 1), tr("org.apache.hadoop.hbase.PleaseHoldException", 1),
-		{"crash(serverOf A)", func(cl *sim.Cluster) {
+		{"crash(serverOf A)", false, func(cl *sim.Cluster) {
 			r := regionOf(cl, "t", "a")
 			s := r.Server
 			to := otherServer(cl, s)
@@ -74,7 +76,7 @@ func c04Events() []c04Event {
 				cl.MetaAddr = to
 			}
 		}},
-		{"stop(serverOf A)", func(cl *sim.Cluster) {
+		{"stop(serverOf A)", false, func(cl *sim.Cluster) {
 			r := regionOf(cl, "t", "a")
 			s := r.Server
 			to := otherServer(cl, s)
@@ -85,18 +87,34 @@ func c04Events() []c04Event {
 				}
 			}
 		}},
-		{"abort-exception(serverOf B)", func(cl *sim.Cluster) {
+		{"abort-exception(serverOf B)", false, func(cl *sim.Cluster) {
 			r := regionOf(cl, "t", "x")
 			cl.SrvScript[r.Server] = append(cl.SrvScript[r.Server], sim.ClsServerAbort)
 		}},
-		{"connreset(serverOf A)", func(cl *sim.Cluster) { cl.ResetConns(regionOf(cl, "t", "a").Server) }},
-		{"metamove", func(cl *sim.Cluster) {
+		{"connreset(serverOf A)", false, func(cl *sim.Cluster) { cl.ResetConns(regionOf(cl, "t", "a").Server) }},
+		{"metamove", false, func(cl *sim.Cluster) {
 			old := cl.MetaAddr
 			cl.MetaAddr = "rs3:1"
 			cl.ResetConns(old)
 		}},
-		{"meta-transient(NSRE)", func(cl *sim.Cluster) { cl.Script["hbase:meta,,1"] = append(cl.Script["hbase:meta,,1"], sim.ClsNSRE) }},
-		{"zk-error x2", func(cl *sim.Cluster) { cl.ZKScript = append(cl.ZKScript, "session expired", "connection loss") }},
+		{"meta-transient(NSRE)", false, func(cl *sim.Cluster) { cl.Script["hbase:meta,,1"] = append(cl.Script["hbase:meta,,1"], sim.ClsNSRE) }},
+		{"zk-error x2", false, func(cl *sim.Cluster) { cl.ZKScript = append(cl.ZKScript, "session expired", "connection loss") }},
+		// the server of region A hangs: it accepts requests and never answers (C18's silent
+		// server), its regions are reassigned; only the read timeout can tell the client
+		{"hang(serverOf A)", true, func(cl *sim.Cluster) {
+			r := regionOf(cl, "t", "a")
+			s := r.Server
+			to := otherServer(cl, s)
+			cl.Silent[s] = true
+			for _, x := range cl.Regions {
+				if x.Server == s {
+					x.Server = to
+				}
+			}
+			if cl.MetaAddr == s {
+				cl.MetaAddr = to
+			}
+		}},
 	}
 }
 
@@ -350,6 +368,11 @@ func c04Units(thorough bool) []*explore.Unit {
 	units := c04AdminUnits(thorough)
 	evs := c04Events()
 	add := func(p c04Params, bound int) {
+		for _, e := range p.events {
+			if evs[e].wireOnly && !p.wire {
+				return
+			}
+		}
 		out := &c04Obs{}
 		var names []string
 		for _, e := range p.events {
